@@ -512,3 +512,31 @@ func init() {
 		return 0
 	}
 }
+
+func init() {
+	// dbgff <scenario> <monitors...>: run the seed, report every fast-forward attempt that changed a node and the final state
+	checks["dbgff"] = func(args []string) int {
+		sc := sched.ScenarioByName(args[0])
+		st := &mon.Stats{}
+		x := sched.NewExec(sc, sched.MonitorFactory(args[1:], st))
+		defer x.Close()
+		for k, a := range sc.Seed {
+			err := x.Step(a)
+			if a.K == "FF" && err == nil {
+				n := x.C.Nodes[a.A]
+				fmt.Printf("step %d %s: node %d reset at step %d, last block %d\n", k, a.String(), a.A, n.FFStep, n.Node.GetLastBlockIndex())
+			}
+		}
+		sr := x.FairSuffix(40)
+		fmt.Printf("suffix %+v\n", sr)
+		for _, n := range x.C.Nodes {
+			if n != nil {
+				fmt.Printf("node %d state=%s ff=%d blocks=%d events=%d\n", n.Idx, n.Node.GetState(), n.FFStep, n.Node.GetLastBlockIndex(), len(n.Has))
+			}
+		}
+		for _, v := range x.Viol {
+			fmt.Println("VIOL", v.Property, v.Key, v.What[:min(len(v.What), 300)])
+		}
+		return 0
+	}
+}
